@@ -70,6 +70,27 @@ class C10(Prop):
         forced = ["product-order"] * 3 + ["continue-fail"] * 4 + ["raise-multi"] * 2      # whatever the seed
         for _ in range(4):
             yield self._map_case(rng, force="raise-multi", bounded=True)
+        # whatever the seed: items that compare EQUAL without being the same value (1 / True, 0 / False) — each is its own combination and
+        # gets its own result, on both runners, through runner.map and through a mapping node
+        for runner in ("async", "sync", "async"):
+            c = self._map_case(rng)
+            xs = rng.sample([1, True, 0, False], 4) + [rng.choice([1, True])]
+            for v in c["values"]:
+                if v[0] in c["mapOver"]:
+                    v[1] = {"l": list(xs)} if v[0] == "x" else {"l": [rng.randint(0, 1) for _ in xs]}
+            c.update(mode="zip", runner=runner, mapErr="continue")
+            yield c
+        # whatever the seed: a concurrency limit without a single slot — refused, or else one result per combination all the same
+        for _ in range(2):
+            c = self._map_case(rng, bounded=True)
+            c.update(k=0, mapErr=rng.choice(["raise", "continue"]), noSlot=True)
+            yield c
+        for runner in ("async", "sync"):
+            inner = {"name": "g0", "nodes": [gen._fn_node("a", [["x", None]], ["r"], {"b": "tag", "t": "a"})], "bound": []}
+            gn = {"name": "mapper", "kind": "graph", "inner": 0, "inRen": [], "outRen": [], "mapOver": ["x"], "mapMode": "zip", "errMode": "raise"}
+            outer = {"name": "g1", "nodes": [gn], "bound": []}
+            yield {"kind": "node", "program": [inner, outer], "values": [["x", {"l": rng.sample([1, True, 0, False], 4)}]], "cfg": {},
+                   "runner": runner, "k": rng.choice([None, 2]), "seed": rng.randint(0, 10**6)}
         while True:
             if forced or rng.random() < 0.5:
                 c = gen.gen_map_node(rng, force=forced.pop() if forced else rng.choice([None, None, None, "raise-multi", "continue-fail", "product-order"]))
@@ -103,6 +124,8 @@ class C10(Prop):
             if cs is None:
                 return None if obs["raised"] == "ValueError" else f"zip over unequal lengths was not rejected with ValueError (raised={obs['raised']})"
             singles = obs["singles"]
+            if case.get("noSlot") and obs["raised"] == "ValueError" and not obs["calls"]:
+                return None      # the call was refused before anything ran
             fails = [i for i, s in enumerate(singles) if s["status"] == "failed"]
             if case["mapErr"] == "raise" and fails:
                 if obs["raised"] != singles[fails[0]]["error"]:
@@ -161,7 +184,7 @@ class C10(Prop):
     def model(self, case: dict, driver: Any) -> Any:
         if case["kind"] == "map":
             r = driver.ask({"op": "map", "program": case["program"], "values": case["values"], "mapOver": case["mapOver"], "mode": case["mode"],
-                            "mapErr": case["mapErr"], "cfg": case["cfg"], "runner": case["runner"]})
+                            "mapErr": case["mapErr"], "cfg": case["cfg"], "runner": case["runner"], "k": case["k"] if case["runner"] == "async" else None})
             return {"results": [{k: x[k] for k in ("status", "values", "error")} for x in r["results"]], "raised": r["raised"]}
         return impl.model_obs(driver.ask({"op": "run", "program": case["program"], "values": case["values"], "cfg": case["cfg"], "runner": case["runner"]}))
 
